@@ -23,7 +23,7 @@ RULE = ('(1) rename: a generated chart with fixed-width names is built twice fro
 ASSUMPTIONS = ['renamings keep the relative lexicographic order of state names (names are the documented tie-breaker)',
                'guest charts have no final child of their root (a final child of the root ends the guest but not the host)',
                'the host never leaves the plugged state']
-REQUIRED_COUNTERS = ['rename_cases', 'copy_cases', 'rename_steps_compared', 'copy_steps_compared', 'renamed_internal_sources',
+REQUIRED_COUNTERS = ['donor_unchanged_checks', 'rename_cases', 'copy_cases', 'rename_steps_compared', 'copy_steps_compared', 'renamed_internal_sources',
                      'renamed_initial_or_memory_targets', 'warmup_before_rename', 'copy_partial_source', 'copy_with_backward_transition']
 TIERS = dict(quick=dict(steps=30, gen=dict(max_states=12, max_depth=4, max_trans=14)),
              thorough=dict(steps=60, gen=dict(max_states=18, max_depth=5, max_trans=24)))
@@ -196,11 +196,24 @@ def copy_case(acc, rnd, tier):
     backward = any(t['target'] is not None and order[t['target']] <= order[t['source']] for t in ch['transitions'])
     if backward:
         acc.count('copy_with_backward_transition')
+    from .c16 import view as _view
+    donor_before = _view(donor)
+    donor_codes = sorted((t.source, str(t.target), str(t.event), str(t.guard), str(t.action)) for t in donor.transitions)
     try:
         host.copy_from_statechart(donor, source=groot, replace='SLOT', renaming_func=f)
     except Exception as e:      # noqa
         acc.violation('C17:copy-raised', 'copy_from_statechart raised %s: %s' % (type(e).__name__, str(e)[:300]), wit)
         return
+    try:
+        donor_ok = (_view(donor) == donor_before and donor.validate() and donor_codes == sorted(
+            (t.source, str(t.target), str(t.event), str(t.guard), str(t.action)) for t in donor.transitions))
+    except Exception as e:      # noqa
+        donor_ok = False
+    if not donor_ok:
+        acc.violation('C17:copy-modified-the-source-statechart', 'copy_from_statechart changed the statechart it copied from '
+                      '(source=%r%s)' % (groot, ', below the donor root' if partial else ''), wit)
+        return
+    acc.count('donor_unchanged_checks')
     by_action = {(build.Coder().action(ch, t) or '').strip(): t['id'] for t in ch['transitions']}
     tmap_h = {}
     for t in host.transitions:
